@@ -394,6 +394,12 @@ func c18Items(c *Ctx) []pgen.FItem {
 	add(pgen.FSig{P: []string{"*SV"}, R: []string{"[]string", "error"}, Mode: "blank"})
 	add(pgen.FSig{P: nil, R: []string{"int", "error"}, Mode: "named"})
 	add(pgen.FSig{P: []string{"NStr", "float64", "bool"}, R: []string{"error"}, Mode: "reserved"})
+	// one small-integer parameter, one result (a table indexed by the argument would be tempting)
+	add(pgen.FSig{P: []string{"int8"}, R: []string{"int"}, Mode: "named"})
+	add(pgen.FSig{P: []string{"NI8"}, R: []string{"string"}, Mode: "named"})
+	add(pgen.FSig{P: []string{"uint8"}, R: []string{"int"}, Mode: "named"})
+	add(pgen.FSig{P: []string{"int16"}, R: []string{"bool"}, Mode: "named"})
+	add(pgen.FSig{P: []string{"bool"}, R: []string{"string"}, Mode: "named"})
 	// functions whose results are nil / zero (a sentinel that must not be mistaken for "not computed yet");
 	// result types outside the alphabet above, so that no signature is asked for twice in one package
 	for _, rt := range []string{"*SP", "[]SV", "map[int]string", "error", "[]*int", "*NInt", "uint8"} {
